@@ -3,7 +3,7 @@
 From Coq Require Import List Bool ZArith NArith.
 From PC Require Import Base.Atoms Base.Xml Model.SchemaSyntax Model.Schema Gen.Schema141
                        Model.Bookkeeping Model.EmitGrammar Model.SchemaIncl
-                       Proofs.BookProofs Proofs.SchemaIncl.
+                       Model.EmitDoc Proofs.BookProofs Proofs.SchemaIncl Proofs.EmitConf.
 Import ListNotations.
 
 (* ---- bookkeeping, for ALL models of a source / a primitive (Model/Bookkeeping.v: emit_source,
@@ -75,6 +75,32 @@ Proof.
 Qed.
 Print Assumptions C04_conforming_consistent_valid.
 
+(* ---- the whole writer, from-scratch (constructor) domain: Model/EmitDoc.v *)
+
+(* (1) everything the emit model writes for well-formed user content is in the emit grammar;
+   structural induction over the document (Proofs/EmitConf.v), schema-independent.
+   wf_user = wf_content (NCName ids/names/symbols, light colours of 3 and effect colours of 4
+   numbers, shader-specific parameters and their kinds, legal camera parameter combinations,
+   node children in schema order, non-empty scenes and libraries-as-lists, URIs, dateTimes,
+   counts within xs:unsignedLong, the lexical table knowing the writer's own fixed words)
+   and ids_distinct (all id attributes of the emitted tree differ, derived -array/-vertices
+   ones included). *)
+Theorem C04_emit_conforms : forall lex d, wf_user lex d = true -> conforms emit_grammar lex (emit d) = true.
+Proof.
+  intros lex d H. unfold wf_user in H. apply andb_true_iff in H as [H _]. now apply emit_conforms_content.
+Qed.
+Print Assumptions C04_emit_conforms.
+
+(* the full statement: from (1), C04_included_sound (2), C04_grammar_in_schema (3) and the
+   uniqueness of ids; no per-document conformance run is involved *)
+Theorem C04_schema_valid : forall lex d, wf_user lex d = true -> validate schema141 lex (emit d) = true.
+Proof.
+  intros lex d H. apply C04_schema_valid_partial; [now apply C04_emit_conforms|].
+  unfold wf_user in H. apply andb_true_iff in H as [_ H]. unfold ids_distinct in H.
+  apply Nat.eqb_eq in H. now apply dup0_ids_unique.
+Qed.
+Print Assumptions C04_schema_valid.
+
 (* ---- non-vacuity *)
 
 (* a float source with 2 rows of X Y Z *)
@@ -129,4 +155,50 @@ Example C04_validator_rejects :
   validate schema141 tiny_lex (tiny_doc [tiny_scene; tiny_asset]) = false /\
   validate schema141 tiny_lex (tiny_doc [tiny_scene]) = false /\
   validate schema141 (lex_of []) (tiny_doc [tiny_asset; tiny_scene]) = false.
+Proof. vm_compute. repeat split; reflexivity. Qed.
+
+(* a document with every library: camera, phong effect with a texture map and its two newparams,
+   geometry (two sources, triangles with a gap-free two-column index, double sided), image, spot
+   light, material, a library node, a scene whose node holds transforms, one child of each kind
+   in schema order, a bound material and a nested node; every word is an NCName except the date *)
+Definition lex0 : atom -> N := fun a => if N.eqb a 2000 then 8%N else 535%N.
+Definition nm (n : N) : aval := AStr n.
+Definition fl (l : list nat) : list tok := map (fun n => TInt (Z.of_nat n)) l.
+Definition doc0 : doc :=
+  Doc (Asset [Contributor (Some [TWord 1001%N]) None None None (Some [TWord 1002%N])] [TWord 2000%N] [TWord 2000%N]
+             None None None (Some [TWord 1003%N; TWord 1004%N]) (Some (nm 1005%N, AInt 1%Z)) [TWord a_Z_UP])
+      [Camera (nm 1010%N) true (Some (fl [45])) None (Some [TNum 0%N]) (fl [1]) (fl [100])]
+      [Effect (nm 1020%N) (nm 1021%N)
+              [PSurface (nm 1022%N) [TWord 1040%N] [TWord 1023%N]; PSampler (nm 1024%N) [TWord 1022%N] (Some [TWord a_LINEAR]) None]
+              ShPhong (Some (VColor (fl [0;0;0;1]))) None (Some (VMap (nm 1024%N) (nm 1025%N))) None (Some (VFloat (fl [2])))
+              None None (Some (VColor (fl [1;1;1;1]))) (Some (VFloat (fl [1]))) None true (fl [0])]
+      [Geometry (nm 1030%N) (Some (nm 1031%N))
+                (SrcM 1032%N 1033%N (fl [0;0;0;1;0;0;0;1;0]) [a_X; a_Y; a_Z] a_float_array a_float)
+                [SrcM 1034%N 1035%N (fl [0;0;1]) [a_X; a_Y; a_Z] a_float_array a_float]
+                1036%N 1032%N
+                [PrimM KTriangles [InpM 0 a_VERTEX (ARef true 1032%N) None; InpM 1 a_NORMAL (ARef true 1034%N) None]
+                       [fl [0;0;1;0;2;0]] (Some (nm 1037%N))]
+                true]
+      [Image (nm 1040%N) [TWord 1041%N]]
+      [Light (nm 1050%N) LSpot (fl [1;1;1]) (Some (fl [1])) None None (Some (fl [30])) None]
+      [Material (nm 1060%N) (nm 1061%N) 1020%N]
+      [SNode (nm 1070%N) (nm 1070%N) [(TScale, fl [1;1;1])] [SLight 1050%N]]
+      [VScene (nm 1080%N)
+              (SNode (nm 1081%N) (nm 1082%N) [(TTranslate, fl [1;2;3]); (TRotate, fl [0;0;1;90])]
+                     [SCamera 1010%N; SGeometry 1030%N [MatNode (nm 1037%N) 1060%N [Bvi (nm 1025%N) (nm a_TEXCOORD) (Some (AInt 0%Z))]];
+                      SLight 1050%N; SInst 1070%N; SNode (nm 1083%N) (nm 1083%N) [] [SExtra]; SExtra]) []]
+      (Some 1080%N).
+
+Example C04_schema_valid_nonvacuous :
+  wf_user lex0 doc0 = true /\ Nat.ltb 100 (xml_size (emit doc0)) = true /\ validate schema141 lex0 (emit doc0) = true /\
+  book_ok (emit doc0) = true.
+Proof. vm_compute. repeat split; reflexivity. Qed.
+
+(* wf_user is not trivially true: children out of schema order, a four-component light colour,
+   a specular colour on a lambert shader, a duplicate id *)
+Example C04_wf_user_discriminates :
+  wf_snode lex0 (SNode (nm 1%N) (nm 1%N) [] [SLight 2%N; SCamera 3%N]) = false /\
+  wf_light lex0 (Light (nm 1%N) LPoint (fl [1;1;1;1]) None None None None None) = false /\
+  wf_effect lex0 (Effect (nm 1%N) (nm 2%N) [] ShLambert None None None (Some (VColor (fl [0;0;0;1]))) None None None None None None false (fl [0])) = false /\
+  ids_distinct (Doc (d_asset doc0) (d_cameras doc0 ++ d_cameras doc0) [] [] [] [] [] [] [] None) = false.
 Proof. vm_compute. repeat split; reflexivity. Qed.
